@@ -416,10 +416,18 @@ func seqCases() [][]seqKid {
 	// field counts elements, not bytes
 	out = append(out, []seqKid{{"B", 9000000}, {"A", 9000000}}, []seqKid{{"A", 1<<24 - 1}}, []seqKid{{"U1", 1<<24 - 1}, {"B", 3}},
 		[]seqKid{{"B", 11500000}, {"U1", 11500000}, {"BOOLEAN", 11500000}}) // more than 2^25 values in one message
+	// the same one and two lists further down: a child that is itself a list may be longer than any single item
+	// (a first kid of format "wrap" says how many one-element lists enclose the list of the others)
+	out = append(out, []seqKid{{"wrap", 1}, {"A", 1<<24 - 1}}, []seqKid{{"wrap", 2}, {"B", 9000000}, {"U1", 9000000}},
+		[]seqKid{{"wrap", 1}, {"I8", 70000}, {"U1", 3}}, []seqKid{{"wrap", 3}, {"A", 65536}, {"B", 65536}, {"U2", 32768}, {"F4", 16384}, {"I8", 8192}})
 	return out
 }
 
 func seqEvent(kids []seqKid) J {
+	wrap := 0
+	if len(kids) > 0 && kids[0].f == "wrap" {
+		wrap, kids = kids[0].n, kids[1:]
+	}
 	items := make([]interface{}, len(kids))
 	kj := make([]interface{}, len(kids))
 	for i, kd := range kids {
@@ -449,11 +457,15 @@ func seqEvent(kids []seqKid) J {
 			}
 		}
 	}
-	msg := ast.NewHSMSDataMessage("", 1, 1, 0, "H->E", ast.NewListNode(items...), 7, []byte{1, 2, 3, 4}).ToBytes()
+	var top ast.ItemNode = ast.NewListNode(items...)
+	for w := 0; w < wrap; w++ {
+		top = ast.NewListNode(top)
+	}
+	msg := ast.NewHSMSDataMessage("", 1, 1, 0, "H->E", top, 7, []byte{1, 2, 3, 4}).ToBytes()
 	decodeMu.Lock()
 	r := decode(msg, exact)
 	decodeMu.Unlock()
-	ev := J{"ev": "bigseq", "kids": kj, "ok": r.ok, "same": false, "msglen": len(msg)}
+	ev := J{"ev": "bigseq", "kids": kj, "wrap": wrap, "ok": r.ok, "same": false, "msglen": len(msg)}
 	hs := []interface{}{}
 	for _, h := range r.hdrs {
 		hj := h.(J)
